@@ -64,6 +64,14 @@ Fixpoint sinsert (x : string) (l : list string) : list string :=
   end.
 Definition ssort (l : list string) : list string := fold_right sinsert [] l.
 
+(* sorting that keeps duplicates *)
+Fixpoint sinsert_dup (x : string) (l : list string) : list string :=
+  match l with
+  | [] => [x]
+  | y :: r => if String.leb x y then x :: l else y :: sinsert_dup x r
+  end.
+Definition ssort_dup (l : list string) : list string := fold_right sinsert_dup [] l.
+
 (* dict semantics on rendered keys: a later assignment to an equal key replaces the value in place *)
 Fixpoint dset (k v : string) (l : list (string * string)) : list (string * string) :=
   match l with
